@@ -172,9 +172,17 @@ def replay_estimates(m, task):
     IS = m["inertial_sensor"]
     mask = task["mask"]
     b = bits(mask)
-    em = IS.EstimationModel(bias_sd=[1.0 if x else 0.0 for x in b["bias"]], bias_walk=None,
-                            noise=[1.0 if x else 0.0 for x in b["noise"]],
-                            scale_misal_sd=[[1.0 if b["sm"][o][i] else 0.0 for i in range(3)] for o in range(3)])
+    # the same parameters in the argument forms the constructor documents (array_like): float lists, integer lists (1 and 0 are
+    # integers - the same values), integer / float ndarrays, disabled axes spelled 0 or -1.  Nothing of the estimate arithmetic may
+    # depend on the dtype the standard deviations were given in (seeded change C14_8: an integer accumulator).
+    form = int(task.get("seed", mask)) % 4
+    off = -1 if form == 3 else 0
+    cast = (lambda v: [float(x) for x in v]) if form == 0 else (lambda v: [int(x) for x in v]) if form == 1 else \
+           (lambda v: np.array(v, dtype=np.int64)) if form == 2 else (lambda v: np.array(v, dtype=float))
+    cast2 = lambda M_: [cast(r) if form < 2 else list(r) for r in M_] if form < 2 else np.array(M_, dtype=np.int64 if form == 2 else float)
+    em = IS.EstimationModel(bias_sd=cast([1 if x else off for x in b["bias"]]), bias_walk=None,
+                            noise=cast([1 if x else off for x in b["noise"]]),
+                            scale_misal_sd=cast2([[1 if b["sm"][o][i] else off for i in range(3)] for o in range(3)]))
     n = em.n_states
     vec = lambda j: np.array([((j * k + j) % 5) - 2 for k in range(1, n + 1)]) / 64.0
     for op, st in zip(task["ops"], task["states"]):
@@ -452,7 +460,7 @@ def check(rep, pid, tier, seed):
         rep.add_tlc("SensorEstimates[-simulate,M=%d]" % mask, s, note="behaviour generation for leg R")
         for tr in s.sim_traces:
             if len(tr) > 1:
-                tasks.append(dict(mask=mask, ops=[tuple(o) for o in tr[-1][1]["ops"]],
+                tasks.append(dict(mask=mask, seed=len(tasks), ops=[tuple(o) for o in tr[-1][1]["ops"]],
                                   states=[dict(bias=st["bias"], tr=st["tr"], sum=st["sum"], ret=st["ret"]) for _, st in tr[1:]]))
     r = tlc.run_tlc("SensorEstimates", dict(spec="Spec", constants=dict(M=reps[0], NVec=3, MaxOps=3, Accumulate=False), invariants=EST_INV), workers=2)
     rep.extra.setdefault("spec_sensitivity", []).append(dict(model="SensorEstimates[Accumulate=FALSE]", violated=r.violated))
